@@ -18,7 +18,7 @@ are avoided so that a mismatch can never be a matter of opinion):
   * 203YYY ... 203255 encloses numeric elements only;
   * 221YYY is followed by exactly YYY element descriptors;
   * 206YYY is followed by one local descriptor that no bundled table defines;
-  * a bitmap is defined after enough plain elements for its window, QA values / marker operators are
+  * a bitmap is defined after enough ORDINARY elements for its window (no replication factor inside the window), QA values / marker operators are
     repeated by a delayed replication (the specification derives its factor from the bitmap) or by a
     fixed count not larger than the bitmap;
   * every replication descriptor counts exactly the descriptors of its body as written.
@@ -244,7 +244,7 @@ class Gen(object):
             out += [101000, 31001, 31031]
             nbits = 0
         else:
-            nbits = rnd.randint(1, max(1, min(3, self.plain)))
+            nbits = rnd.randint(1, 2)
             out += [101000 + nbits, 31031]
         if intro == 224000:
             out.append(8023)
@@ -271,10 +271,11 @@ class Gen(object):
         ctx = Ctx()
         out = self.block(ctx, self.rnd.randint(1, 4))
         if self.with_bitmap:
-            if self.plain < 2:
-                e = self.elems(2, ('num', 'num', 'code'))
-                out += e
-                self.plain += 2
+            # the window of the bitmap (at most 3 entries) holds ordinary elements only: a replication factor (class 31) in
+            # the window under an operator at the marker is the region where FM-94 is silent (WF)
+            e = self.elems(self.rnd.randint(2, 3), ('num', 'num', 'code'))
+            out += e
+            self.plain = max(self.plain, 0) + len(e)
             out += self.bitmap_section(True, self.ndelayed < self.max_delayed)
             r = self.rnd.random()
             if r < 0.3:
